@@ -5886,3 +5886,131 @@ func ringWindowGate(c *Ctx) {
 		c.OK("ring-window", c.P.Pos(stores[0].node.Pos()), fmt.Sprintf("the out-of-window branch of Put is left towards the store only under a window test that came out inside (%d exit(s))", nBreak))
 	}
 }
+
+// allocAfterBound (limit-guards, C12): an instruction that allocates a buffer whose length is an operand taken from
+// the stack compares the length with an upper bound - the length of the source or a Max* constant - before it calls
+// make: a bare `make([]byte, l)` with l up to 2^31-1 allocates gigabytes and only then faults on the slice bounds
+// (RIGHT did; its sibling LEFT checks first). Memory-safety is about the intermediate state, not only the outcome.
+func allocAfterBound(c *Ctx) {
+	fd := c.P.Func("pkg/vm", "VM", "execute")
+	if fd == nil {
+		c.Lost("alloc-after-bound.anchor", "VM.execute not found")
+		return
+	}
+	f := c.P.NewFuncCFG(fd)
+	info := f.Info
+	n := 0
+	ast.Inspect(fd.Decl.Body, func(x ast.Node) bool {
+		cc, ok := x.(*ast.CaseClause)
+		if !ok {
+			return true
+		}
+		arm := ""
+		for _, e := range cc.List {
+			if tv := info.Types[e]; tv.Type != nil && namedTypeIs(tv.Type, "pkg/vm/opcode", "Opcode") {
+				if sel, ok := ast.Unparen(e).(*ast.SelectorExpr); ok {
+					arm = sel.Sel.Name
+				}
+			}
+		}
+		if arm == "" {
+			return true
+		}
+		// operand locals: defined from toInt(...)
+		operands := map[types.Object]bool{}
+		for _, st := range cc.Body {
+			ast.Inspect(st, func(y ast.Node) bool {
+				if as, ok := y.(*ast.AssignStmt); ok && len(as.Lhs) == 1 && len(as.Rhs) == 1 {
+					if call, ok := ast.Unparen(as.Rhs[0]).(*ast.CallExpr); ok && f.calleeSym(call) == "pkg/vm.toInt" {
+						if id, ok := as.Lhs[0].(*ast.Ident); ok {
+							operands[info.ObjectOf(id)] = true
+						}
+					}
+				}
+				return true
+			})
+		}
+		if len(operands) == 0 {
+			return false
+		}
+		for si, st := range cc.Body {
+			ast.Inspect(st, func(y ast.Node) bool {
+				call, ok := y.(*ast.CallExpr)
+				if !ok || len(call.Args) < 2 {
+					return true
+				}
+				if id, ok := call.Fun.(*ast.Ident); !ok || id.Name != "make" {
+					return true
+				}
+				sz, ok := ast.Unparen(call.Args[1]).(*ast.Ident)
+				if !ok || !operands[info.ObjectOf(sz)] {
+					return true
+				}
+				n++
+				key := "alloc-after-bound." + arm
+				bounded := false
+				for _, prev := range cc.Body[:si] {
+					ast.Inspect(prev, func(z ast.Node) bool {
+						is, ok := z.(*ast.IfStmt)
+						if !ok {
+							return true
+						}
+						mentionsOp, mentionsBound := false, false
+						ast.Inspect(is.Cond, func(w ast.Node) bool {
+							if sel, ok := w.(*ast.SelectorExpr); ok && sel.Sel.Name == "Len" {
+								mentionsBound = true // the depth of a stack, the size of a collection
+							}
+							if id, ok := w.(*ast.Ident); ok {
+								if info.ObjectOf(id) == info.ObjectOf(sz) {
+									mentionsOp = true
+								}
+								// a local computed from the operand (last := l + o)
+								if v, ok := info.ObjectOf(id).(*types.Var); ok && !f.params[v] {
+									for _, d := range f.defs[v] {
+										for _, r := range d.rhs {
+											ast.Inspect(r, func(q ast.Node) bool {
+												if qi, ok := q.(*ast.Ident); ok && info.ObjectOf(qi) == info.ObjectOf(sz) {
+													mentionsOp = true
+												}
+												return true
+											})
+										}
+									}
+								}
+								if cst, ok := info.ObjectOf(id).(*types.Const); ok && strings.HasPrefix(cst.Name(), "Max") {
+									mentionsBound = true
+								}
+								if b, ok := info.ObjectOf(id).(*types.Builtin); ok && b.Name() == "len" {
+									mentionsBound = true
+								}
+								// a local bound to len(...) in the if's init or earlier
+								if v, ok := info.ObjectOf(id).(*types.Var); ok && !f.params[v] {
+									for _, d := range f.defs[v] {
+										for _, r := range d.rhs {
+											if f.DirectMentions(r)["builtin.len"] {
+												mentionsBound = true
+											}
+										}
+									}
+								}
+							}
+							return true
+						})
+						if mentionsOp && mentionsBound {
+							bounded = true
+						}
+						return true
+					})
+				}
+				if bounded {
+					c.OK(key, c.P.Pos(call.Pos()), "the operand is compared with an upper bound before the buffer is allocated")
+				} else {
+					c.Fail(key, c.P.Pos(call.Pos()), fmt.Sprintf("%s allocates make(..., %s) with a length taken from the stack before comparing it with any upper bound (the source's length, a Max* limit): a length of 2^31-1 allocates 2 GiB and only then faults", arm, sz.Name))
+				}
+				return true
+			})
+		}
+		return false
+	})
+	c.Floor("buffers allocated with an operand length", n, 2)
+}
